@@ -322,6 +322,33 @@ def r11d(run):
                             "so the excluded field's default disappears there", node=t.ast)
 
 
+def r11e(run):
+    """a retry stage of the union must *fail* on an element it cannot convert under its stricter flags, not exclude or
+    preserve it: otherwise the stage 'succeeds' with elements missing / unconverted that the caller's own options convert"""
+    from . import c18
+    f, fa, stages = c18.union_stages(run)
+    run.floor("R11e", "union retry stages", len(stages), 2)
+    for n, var, fl, lowered, extra in stages:
+        o = kwarg([c for m, c in fa.all_calls() if m is n and call_attr(c) == "enter"][0], "options")
+        ctor = o if isinstance(o, ast.Call) else None
+        if isinstance(o, ast.Name):
+            if o.id in fa.rd.locals:
+                cs = [x.node for x in prov(fa).of_name(n, o.id) if x.kind == "call"]
+                ctor = cs[0] if cs else None
+            else:
+                ctor = f.module.assigns.get(o.id)
+        kws = {k.arg: k.value for k in ctor.keywords} if isinstance(ctor, ast.Call) else {}
+        missing = [p for p in POLICY_ATTRS if not (isinstance(kws.get(p), ast.Constant) and kws[p].value == "throw")]
+        run.check("R11e", f, f"stage `{var}` switches the exclude / preserve policies off", not missing,
+                  construct=f"union stage {var} keeps the caller's exclude/preserve policies",
+                  message=f"the retry stage `{var}` raises {sorted(fl)} but leaves {missing} as the caller set them: an "
+                          f"element that only fails because of the stage's stricter flags is excluded / preserved and the "
+                          f"stage reports success",
+                  necessity="Optional[List[int]] given ['1', 2, 'x'] under invalid_items='exclude' returns [2] (the "
+                            "convertible '1' is dropped by the strict stage) while List[int] returns [1, 2]; under "
+                            "'preserve' it returns ['1', 2, 'x'] with '1' unconverted", node=n.ast)
+
+
 def r11b(run):
     f = run.repo.func("utype.parser.field", "ParserField.parse_value")
     fa = analysis(f)
@@ -344,7 +371,7 @@ def r11b(run):
 
 
 def check(run):
-    run.rules_run += ["R11a", "R11b", "R11c", "R11d", "R04c", "R10f"]
+    run.rules_run += ["R11a", "R11b", "R11c", "R11d", "R11e", "R04c", "R10f"]
     run.explain("C11: every catch-all handler around a conversion that consults an exclude/preserve policy (directly or "
                 "through a local bound to get_on_error / on_error) is partitioned by the policy literal: EXCLUDE warns, "
                 "never raises, and no store of the element / no value return is reachable; PRESERVE warns, never raises, "
@@ -355,6 +382,7 @@ def check(run):
     r11b(run)
     r11c(run)
     r11d(run)
+    r11e(run)
     from . import c10
     c10.r10f(run)
     c04.r04c(run)
